@@ -202,7 +202,7 @@ ScriptChecks(e, tx, body, ws, sc, shape) ==
             pre == IF Len(reds) = 0 /\ HasK(ws, 4) THEN <<160>> \o datB \o <<160>>
                    ELSE redB \o datB \o LangViews(langs, CostOf) IN
         /\ Obl("C09", sc, <<"sdh", langs, Len(reds), Len(Elems(ws,4))>>)
-        /\ Emit([t |-> "HASHCHK", p |-> "C09", sig |-> "Built/script-data-hash-differs-from-emitted-witness-set" \o (IF rereg THEN "/after-reregistration-of-a-plutus-input" ELSE ""), sc |-> sc, alg |-> "blake2b256", pre |-> pre, expect |-> GetK(body, 11).str]))
+        /\ Emit([t |-> "HASHCHK", p |-> "C09", sig |-> "Built/script-data-hash-differs-from-emitted-witness-set" \o (IF rereg THEN "/after-reregistration-of-a-plutus-input" \o (IF \E a \in live : a.purpose = 0 THEN "" ELSE "/no-plutus-input-left") ELSE ""), sc |-> sc, alg |-> "blake2b256", pre |-> pre, expect |-> GetK(body, 11).str]))
 EnvVals == [k \in DOMAIN env |-> env[k].value]
 Built(e) ==
   LET sc == e.sc tx == Parse(e.tx) IN
